@@ -51,7 +51,8 @@ static long run(int t){
       pthread_attr_t *ap = 0; int rc;
       if (o->b){ ap = &attrs[o->a]; pthread_attr_init(ap);
         if (o->b == 2) pthread_attr_setdetachstate(ap, PTHREAD_CREATE_DETACHED);
-        if (o->b == 3) pthread_attr_setstacksize(ap, 512 * 1024); }
+        if (o->b == 3) pthread_attr_setstacksize(ap, 512 * 1024);
+        if (o->b == 4){ void *stk = 0; if (posix_memalign(&stk, 4096, 256 * 1024)) _exit(2); pthread_attr_setstack(ap, stk, 256 * 1024); } }   /* caller-provided stack (lowest address, size) */
       rc = pthread_create(&handle[o->a], ap, thread_fn, (void *)(long)o->a);
       if (rc){ printf("ERROR pthread_create rc=%d\n", rc); fflush(stdout); _exit(3); }
       if (ap) pthread_attr_destroy(ap);
